@@ -59,6 +59,23 @@ VARIANTS = {
 }
 # scenarios per process for the real-time controller variants (quick, thorough)
 CTL_PER = {"relist": (6, 60), "watch": (1, 8), "listfail": (8, 80), "timing": (2, 15), "shutdown": (10, 100)}
+# design-level models checked exhaustively by TLC for each property: (quick, thorough)
+MODELS = {
+    "C03": ([("Controller", "Controller-relist.cfg")], [("Controller", "Controller-relist.cfg"), ("Controller", "Controller-relist-big.cfg")]),
+    "C04": ([("Controller", "Controller-watch.cfg")], [("Controller", "Controller-watch.cfg"), ("Controller", "Controller-watch-big.cfg")]),
+    "C05": ([("Tree", "Tree-live.cfg")], [("Tree", "Tree-live.cfg"), ("Tree", "Tree-safety.cfg")]),
+    "C06": ([("FilterNode", "FilterNode-imm-quick.cfg"), ("FilterNode", "FilterNode-def-quick.cfg")], [("FilterNode", "FilterNode-imm.cfg"), ("FilterNode", "FilterNode-def.cfg")]),
+    "C07": ([("FilterNode", "FilterNode-imm-quick.cfg")], [("FilterNode", "FilterNode-imm.cfg")]),
+    "C08": ([("FilterNode", "FilterNode-imm-quick.cfg"), ("FilterNode", "FilterNode-def-quick.cfg"), ("Controller", "Controller-relist.cfg")],
+            [("FilterNode", "FilterNode-imm.cfg"), ("FilterNode", "FilterNode-def.cfg"), ("Controller", "Controller-relist.cfg")]),
+    "C10": ([("Tree", "Tree-live.cfg")], [("Tree", "Tree-live.cfg"), ("Tree", "Tree-safety.cfg")]),
+    "C11": ([("Tree", "Tree-live.cfg")], [("Tree", "Tree-live.cfg"), ("Tree", "Tree-safety.cfg")]),
+    "C12": ([("Tree", "Tree-live.cfg"), ("Lister", "Lister.cfg")], [("Tree", "Tree-live.cfg"), ("Tree", "Tree-safety.cfg"), ("Lister", "Lister.cfg")]),
+    "C13": ([("Lister", "Lister.cfg")], [("Lister", "Lister.cfg")]),
+    "C14": ([("Controller", "Controller-relist.cfg")], [("Controller", "Controller-relist.cfg"), ("Controller", "Controller-relist-big.cfg")]),
+    "C15": ([("CacheActor", "CacheActor.cfg")], [("CacheActor", "CacheActor.cfg")]),
+    "C16": ([("Monitor", "Monitor.cfg")], [("Monitor", "Monitor.cfg")]),
+}
 BUDGET = {"quick": 160, "thorough": 2400}
 NPROC = 16
 
@@ -163,6 +180,9 @@ def race_run(res, tier):
 def check_tree(prop, tier, replay):
     res = vlib.Result(prop, tier, "model_checking")
     want = CLASSES[prop] | {"crash"}
+    # 1. the design: TLC explores every interleaving of the bounded model and evaluates the property there
+    mgen, mdist, mnames = vlib.model_check_all(MODELS[prop][0 if tier == "quick" else 1])
+    # 2. the binding: scenarios on the real code, every recorded line a step of the trace specification
     nscen, lines, samples, allcls = run_tree(prop, tier, res, want, VARIANTS[prop], BUDGET[tier])
     if prop == "C15":
         race_run(res, tier)
@@ -173,7 +193,7 @@ def check_tree(prop, tier, replay):
         nscen += st["snaps"]
         lines += st["lines"]
     res.coverage = {
-        "states": lines, "transitions": lines,
+        "states": mdist, "transitions": mgen, "design_models": mnames,
         "traces_validated_against_impl": nscen,
         "samples": samples,
         "evaluations": nscen, "distinct_nontrivial": nscen,
